@@ -235,15 +235,25 @@ Definition run_case (sparse : bool) (pre : option (Model Z)) (m : Model Z) : lis
 
 def run_model(ctx, cases, tag):
     """evaluate the Gallina save/load on the cases; returns dict id -> flat int list (or None on failure), and message"""
-    vf = os.path.join(ctx.work, "Cases_%s.v" % tag)
-    o = [COQ_PRELUDE]
-    for c in cases:
-        pre = "(Some %s)" % coq_model(pre_model(c["kind"])) if c["pre"] else "None"
-        o.append("Eval vm_compute in (run_case %s %s %s)." % ("true" if c["kind"] == "sparse" else "false", pre, coq_model(c["items"])))
-    open(vf, "w").write("\n".join(o) + "\n")
-    rc, out = vlib.sh(["coqc", "-Q", vlib.COQ, "PIQP", vf], cwd=ctx.work, timeout=900)
-    if rc != 0:
-        return None, "coqc on generated case file failed: " + out[-800:]
+    # shard the cases over several files evaluated in parallel (one big file can exceed any reasonable time limit on a loaded machine)
+    from concurrent.futures import ThreadPoolExecutor
+    SH = 120
+    shards = [cases[i:i + SH] for i in range(0, len(cases), SH)] or [[]]
+    def one(args):
+        k, sh_cases = args
+        vf = os.path.join(ctx.work, "Cases_%s_%d.v" % (tag, k))
+        o = [COQ_PRELUDE]
+        for c in sh_cases:
+            pre = "(Some %s)" % coq_model(pre_model(c["kind"])) if c["pre"] else "None"
+            o.append("Eval vm_compute in (run_case %s %s %s)." % ("true" if c["kind"] == "sparse" else "false", pre, coq_model(c["items"])))
+        open(vf, "w").write("\n".join(o) + "\n")
+        return vlib.sh(["coqc", "-Q", vlib.COQ, "PIQP", vf], cwd=ctx.work, timeout=3000)
+    with ThreadPoolExecutor(max_workers=8) as ex:
+        results = list(ex.map(one, enumerate(shards)))
+    for rc, out in results:
+        if rc != 0:
+            return None, "coqc on generated case file failed: " + out[-800:]
+    out = "\n".join(o_ for _, o_ in results)
     chunks = re.split(r"^\s*=\s", out, flags=re.M)[1:]
     if len(chunks) != len(cases):
         return None, "expected %d results from the model, got %d" % (len(cases), len(chunks))
